@@ -385,6 +385,23 @@ class StrSummaries:
             if m.group(1) == "all":
                 return Bool(z3.And(*terms) if terms else z3.BoolVal(True))
             return Bool(z3.Or(*terms) if terms else z3.BoolVal(False))
+        # ---- Chars adaptors used by string slicing: count / skip(n) / take(n) / collect::<String>()
+        m = re.match(r"^<(?:std::str::)?Chars<'?_?> as Iterator>::(count|skip)$|^<(?:std::iter::)?Skip<Chars<'?_?>> as Iterator>::(take)$|^<(?:std::iter::)?Take<Skip<Chars<'?_?>>> as Iterator>::(collect)::<(?:std::string::)?String>$", n)
+        if m:
+            it = A[0] if not isinstance(A[0], Ref) else self.deref(st, A[0])
+            if not isinstance(it, CharsIt) or it.indices:
+                return NotHandled
+            meth = m.group(1) or m.group(2) or m.group(3)
+            remaining = it.hi - it.i
+            if meth == "count":
+                return Int(z3.BitVecVal(remaining, 64), 64, False)
+            if meth == "collect":
+                return StrBuf(list(it.sym.chars[it.i:it.hi]))
+            k = ex.concrete_int(st, z3.If(z3.ULT(A[1].t, z3.BitVecVal(remaining, 64)), A[1].t, z3.BitVecVal(remaining, 64)),
+                                candidates=list(range(0, remaining + 1)), what="chars().%s(n)" % meth)
+            if meth == "skip":
+                return CharsIt(it.sym, it.i + k, it.hi, it.base, False)
+            return CharsIt(it.sym, it.i, it.i + k, it.base, False)        # take
         m = re.match(r"^<(?:std::str::)?(Chars|CharIndices)<'?_?> as Iterator>::next$", n)
         if m:
             it = self.deref(st, A[0])
